@@ -19,6 +19,9 @@ Line-protocol ops of C08:
   time world decoded from the first field (`Drv/C08Time.lean`: zone tables, dateparse answers), plus `format`; colour etc. off;
 * `fmt <format> <operands>` – `fmt.Sprintf` on string operands (`Drv/C08Fmt.lean`); `exprw` also has `format` modelled;
 * `funcs <opt> <file> <template> <elems> <keys>` – a definitions file (user functions → `lazySubContext`), as in C10;
+* `build <name> <n> <elems>` – the builder registered under `name` called DIRECTLY with `n` constant arguments `1`
+  (`n = 0` cannot be written as a template: `{name}` is a key look-up), its stage evaluated over `elems`; colour and
+  unicode off, loading enabled, no readable file, the empty time world;
 * `gm <line> <indices> <idx>` – `SliceSpaceExpressionContext.GetMatch(idx)` (model `C02.getMatch`).
 -/
 namespace Rare.Drv.C08
@@ -84,6 +87,26 @@ def handle (args : List String) : String :=
       match Rare.C02.getMatch line indices idx with
       | .ok b => s!"ok {Hex.enc b}"
       | .error _ => "panic"
+    | _, _, _ => "bad-args"
+  | ["build", nm, n, el] =>
+    match Hex.dec nm, n.toNat?, decHexList el with
+    | some name, some k, some elems =>
+      match registryT (Rare.Drv.C08Time.world {}) (name.map fun b => Char.ofNat b.toNat) with
+      | none => "ok missing"
+      | some b =>
+        match b (List.replicate k (Stage.lit (ascii "1"))) with
+        | .error m => Rare.Drv.Expr.panicAns m
+        | .ok built =>
+          let e := match built.err with
+            | some t => "func." ++ t
+            | none => "."
+          if e.startsWith "func.unmodelled:" then "unmodelled " ++ (e.drop 16).toString else
+          match built.stage with
+          | none => s!"ok stage=0 err={e} val=-"
+          | some st =>
+            match st.run (Rare.Drv.Expr.mkCtx elems []) with
+            | .error m => Rare.Drv.Expr.panicAns m
+            | .ok v => s!"ok stage=1 err={e} val={Hex.enc v}"
     | _, _, _ => "bad-args"
   | "funcs" :: _ => Rare.Drv.C10.handle args
   | _ =>
